@@ -3,7 +3,7 @@
 patch=$1; shift
 cd /repo || exit 2
 if [ -n "$(git status --porcelain)" ]; then echo "repo not clean"; exit 2; fi
-git apply "$patch" 2>/dev/null || git apply --3way "$patch" 2>/dev/null || { echo "patch does not apply"; git checkout -q -- .; git clean -fdq; exit 2; }
+git apply "$patch" 2>/dev/null || { echo "patch does not apply to /repo HEAD (use VERIF_REPO with a worktree of the commit it was written for)"; exit 2; }
 git reset -q
 for id in "$@"; do
   echo "=== $id on $(basename $(dirname $patch))/$(basename $patch)"
